@@ -16,7 +16,7 @@ SHARDS = {'quick': 16, 'thorough': 16}
 MIN_NONTRIVIAL = {'quick': 5000, 'thorough': 150000}
 REQUIRED_CLASSES = ['number-type:py', 'number-type:np.float64', 'number-type:np.int', 'number-type:ndarray', 'add', 'sub', 'mul', 'div', 'neg', 'pow-int', 'pow-pair', 'pow-float', 'pow-float-noninteger', 'reflected-number-left',
                     'number-right', 'array', 'scalar', 'different-units-same-dimension', 'total-cancellation', 'partial-cancellation',
-                    'refuse-different-dimension', 'refuse-reciprocal-dimension', 'refuse-number-plus-dimensional', 'compound-operand', 'sum-of-number-and-dimensionless-unit', 'chain', 'chain:root-of-square', 'chain:product-of-halves', 'chain:np.sqrt-of-square']
+                    'refuse-different-dimension', 'refuse-reciprocal-dimension', 'refuse-number-plus-dimensional', 'compound-operand', 'sum-of-number-and-dimensionless-unit', 'both-operands-one-object', 'chain', 'chain:root-of-square', 'chain:product-of-halves', 'chain:np.sqrt-of-square']
 REQUIRED_MONITORS = ['base_value_compares', 'dimension_compares', 'unit_exponent_compares', 'refusals_demanded']
 ASSUMPTIONS = ['units_ref factors come from the published tables', 'rtol 1e-9 (absolute term 1e-9*max|operand base value| for sums)',
                'only total cancellation is required to drop units', 'fractional powers use positive magnitudes',
@@ -101,6 +101,7 @@ def cases(rng, tier, shard, nshards, ctx):
                 v = same_dim_unit(rng, ctx, u); kind = 'same-dim'
             elif rr < 0.65:
                 v = u; kind = 'same-unit'
+                selfflag = rng.random() < 0.4
             elif rr < 0.78:
                 v = gen_unit(rng, ctx); kind = 'other'
             elif rr < 0.88:
@@ -112,9 +113,11 @@ def cases(rng, tier, shard, nshards, ctx):
                     u = ['a', '', rng.choice(['%', 'ppth', '[pi]', '%', 'ppth']), 1, 1]
                     kind = 'number-and-dimensionless-unit'
             xb_ = pick(rng)
+            selfflag = locals().get('selfflag', False) and kind == 'same-unit'
             if v is None and rng.random() < 0.3:
                 xb_ = rng.choice([0, 0.0, 1, False, True])       # the neutral elements and their bool spellings are numbers like any other
-            yield dict(op=op, u=u, v=v, kind=kind, xa=pick(rng), xb=xb_, arr=arr, side=rng.choice(['right', 'left']), numtype=rng.choice(['py', 'py', 'np.float64', 'np.int', 'ndarray']))
+            yield dict(op=op, u=u, v=v, kind=kind, xa=pick(rng), xb=xb_, arr=arr, side=rng.choice(['right', 'left']), numtype=rng.choice(['py', 'py', 'np.float64', 'np.int', 'ndarray']), self=selfflag)
+            selfflag = False
         elif r < 0.62:
             op = rng.choice(['mul', 'div'])
             u = gen_unit(rng, ctx)
@@ -125,7 +128,10 @@ def cases(rng, tier, shard, nshards, ctx):
                 v = same_dim_unit(rng, ctx, u) if op == 'div' else invert(same_dim_unit(rng, ctx, u)); kind = 'cancel'
             else:
                 v = gen_unit(rng, ctx); kind = 'other'
-            yield dict(op=op, u=u, v=v, kind=kind, xa=pick(rng), xb=pick(rng), arr=arr, side=rng.choice(['right', 'left']), numtype=rng.choice(['py', 'py', 'np.float64', 'np.int', 'ndarray']))
+            if rng.random() < 0.08:
+                v, kind = u, 'same-unit'
+            yield dict(op=op, u=u, v=v, kind=kind, xa=pick(rng), xb=pick(rng), arr=arr, side=rng.choice(['right', 'left']), numtype=rng.choice(['py', 'py', 'np.float64', 'np.int', 'ndarray']),
+                       self=(kind == 'same-unit'))
         elif r < 0.66:
             # two steps: a quantity whose whole exponents came out of FRACTIONAL arithmetic (root of a square, product of two
             # half powers, cube root of a cube, a unit string with halves) is added to / subtracted from a quantity of the same
@@ -251,6 +257,10 @@ def _run(case, ctx):
         classes.append('compound-operand')
     xa = [case['xa'], case['xa'] * 2, case['xa'] * 0.25] if arr else [case['xa']]
     xb = [case['xb'], case['xb'] * -1.5, case['xb'] * 3] if (arr or (case['v'] is None and case.get('numtype') == 'ndarray')) else [case['xb']]
+    selfop = bool(case.get('self')) and case['kind'] == 'same-unit' and op in ('add', 'sub', 'mul', 'div')
+    if selfop:
+        xb = list(xa)                  # ONE object on both sides: q + q, q - q, q * q, q / q
+        classes.append('both-operands-one-object')
     Fu, Fv = mu[0], mv[0]
     if not U.finite_ok(Fu, Fv):
         return outcome(skip='overflow')
@@ -262,7 +272,7 @@ def _run(case, ctx):
     num = lambda xs: (np.array(xs) if arr else xs[0])
     a = mkq(xa, ut)
     number_b = case['v'] is None and op in ('add', 'sub', 'mul', 'div')
-    b = None if case['v'] is None else mkq(xb, vt)
+    b = None if case['v'] is None else (a if selfop else mkq(xb, vt))
     left = case.get('side') == 'left'      # the plain number / second operand is on the left
     if number_b:
         classes.append('reflected-number-left' if left else 'number-right')
